@@ -83,6 +83,10 @@ pub const GRAPHS: &[&[(&str, &[&str])]] = &[
     &[("Main", &["Bb"]), ("Bb", &["Aa"]), ("Aa", &[])],
     &[("Main", &["Aa", "Bb"]), ("Bb", &["Aa"]), ("Aa", &[])],
     &[("Main", &["Aa", "Bb"]), ("Aa", &["Cc"]), ("Bb", &["Cc"]), ("Cc", &[])],
+    // a package among the link inputs that Main does not reach: it is linked all the same, so its
+    // pinned dependency hashes matter as much as anybody's
+    &[("Main", &["Aa"]), ("Aa", &[]), ("Xx", &["Aa"])],
+    &[("Main", &["Bb"]), ("Bb", &["Aa"]), ("Aa", &[]), ("Xx", &["Bb"]), ("Yy", &["Xx", "Aa"])],
 ];
 
 pub struct World {
@@ -587,6 +591,27 @@ pub fn main(args: &util::Args) {
             tagged("link", vec![a("Main"), a("Bb"), a("Aa")]),
         ];
         run_history(&format!("cat:variant:{}", v), g, &ops, &dir.join("w"), &mut out);
+    }
+    // a stale package that Main does not reach, with everything Main reaches up to date
+    {
+        let gx = GRAPHS[5];
+        for v in [1usize, 2, 7] {
+            let ops = vec![
+                tagged("build", vec![a("Aa")]),
+                tagged("build", vec![a("Xx")]),
+                tagged("build", vec![a("Main")]),
+                tagged("link", vec![a("Main"), a("Aa"), a("Xx")]),
+                tagged("edit-iface", vec![a("Aa"), n(v)]),
+                tagged("build", vec![a("Aa")]),
+                tagged("build", vec![a("Main")]),
+                tagged("link", vec![a("Main"), a("Aa"), a("Xx")]),
+                tagged("link", vec![a("Xx"), a("Main"), a("Aa")]),
+                tagged("link", vec![a("Main"), a("Aa")]),
+                tagged("build", vec![a("Xx")]),
+                tagged("link", vec![a("Main"), a("Aa"), a("Xx")]),
+            ];
+            run_history(&format!("cat:unreachable:{}", v), gx, &ops, &dir.join("w"), &mut out);
+        }
     }
     // order-only edits: a dependent built against one order must not link with the other
     for (x, y) in ORDER_PAIRS.iter().flat_map(|(x, y)| [(*x, *y), (*y, *x)]) {
